@@ -4,7 +4,7 @@ import io
 import plistlib
 
 from construct import Adapter, Struct, Const, Padding, Int32ul, Int64ul, Array, GreedyRange, Byte, FixedSized, \
-    CString, Prefixed, GreedyBytes, Aligned, Bytes, Select
+    CString, Prefixed, GreedyBytes, Aligned, Bytes, Select, StreamError
 
 from pykdebugparser.kevent import from_kd_buf, KD_BUF_FORMAT
 from pykdebugparser.os_log_event import OsLogEvent
@@ -94,7 +94,10 @@ def seek_until(reader, data: bytes):
     """
     found = reader.read(len(data))
     while found != data:
-        found = found[1:] + reader.read(1)
+        next_byte = reader.read(1)
+        if not next_byte:
+            raise StreamError(f'Reached the end of the stream while looking for {data!r}')
+        found = found[1:] + next_byte
 
 
 class KdBufParser:
